@@ -193,6 +193,14 @@ def translate_cmdseq() -> tuple[str, dict]:
     pad_widths: dict[str, int] = {}
     ensure_blank = None
     writes_seen = 0
+    # locals of write() assigned exactly once, from a len(...) call: read through them
+    assigned: dict[str, list[ast.AST]] = {}
+    for node in ast.walk(w):
+        for t in (node.targets if isinstance(node, ast.Assign) else [node.target] if isinstance(node, (ast.AugAssign, ast.AnnAssign, ast.For)) else []):
+            for nm in ast.walk(t):
+                if isinstance(nm, ast.Name):
+                    assigned.setdefault(nm.id, []).append(node.value if isinstance(node, ast.Assign) and isinstance(t, ast.Name) else None)
+    once = {k: v[0] for k, v in assigned.items() if len(v) == 1 and isinstance(v[0], ast.Call) and ast.unparse(v[0].func) == 'len'}
     for node in ast.walk(w):
         if isinstance(node, ast.Call) and isinstance(node.func, ast.Attribute) and node.func.attr == 'write':
             writes_seen += 1
@@ -210,6 +218,8 @@ def translate_cmdseq() -> tuple[str, dict]:
                     version_src = val.value
                     version_bits = struct.unpack('<I', struct.pack('<f', val.value))[0]
                 elif fmt.lstrip('<@=') == 'I':
+                    if isinstance(val, ast.Name) and val.id in once:
+                        val = once[val.id]           # n = len(xs); pack('I', n)
                     count_fmts.append(ast.unparse(val))
                 else:
                     raise TranslateError(f'cmdseq.py: write(): pack format {fmt!r} not recognised')
@@ -233,14 +243,19 @@ def translate_cmdseq() -> tuple[str, dict]:
                 continue
             raise TranslateError(f'cmdseq.py: write(): unrecognised write `{ast.unparse(arg)}` (line {node.lineno})')
         if isinstance(node, ast.Assign) and ast.unparse(node.targets[0]) == 'ensure_file':
-            p = _pad_call(node.value)
-            if p is not None:
-                pad_widths['ensure:' + p[0]] = p[1]
-            elif isinstance(node.value, ast.Call) and isinstance(node.value.func, ast.Name) and node.value.func.id == 'bytes' \
-                    and len(node.value.args) == 1 and isinstance(node.value.args[0], ast.Constant):
-                ensure_blank = node.value.args[0].value
-            else:
-                raise TranslateError(f'cmdseq.py: write(): ensure_file = `{ast.unparse(node.value)}` not recognised')
+            # both arms of `X if c else Y` are values the field can take, like the two branches of the statement form
+            arms = [node.value]
+            while any(isinstance(a, ast.IfExp) for a in arms):
+                arms = [b for a in arms for b in ([a.body, a.orelse] if isinstance(a, ast.IfExp) else [a])]
+            for arm in arms:
+                p = _pad_call(arm)
+                if p is not None:
+                    pad_widths['ensure:' + p[0]] = p[1]
+                elif isinstance(arm, ast.Call) and isinstance(arm.func, ast.Name) and arm.func.id == 'bytes' \
+                        and len(arm.args) == 1 and isinstance(arm.args[0], ast.Constant):
+                    ensure_blank = arm.args[0].value
+                else:
+                    raise TranslateError(f'cmdseq.py: write(): ensure_file = `{ast.unparse(node.value)}` not recognised')
     if version_bits is None or name_w is None or pack_struct is None or ensure_blank is None:
         raise TranslateError('cmdseq.py: write(): version tag / name padding / struct pack / blank ensure_file not found')
     WMAP = {'cmd.enabled': 'KEnabled', 'special': 'KSpecial', 'pad:exe': 'KExe', 'pad:cmd.args': 'KArgs', 'True': 'KLong',
@@ -1760,7 +1775,7 @@ def _snd_stack_census(fn: ast.FunctionDef, parse_one: ast.FunctionDef, init: ast
     arg_of.update({ast.unparse(k.value): k.arg for k in ctor.keywords})
     read_assign = None
     for n in ast.walk(parse_one):
-        if isinstance(n, ast.Assign) and isinstance(n.targets[0], ast.Tuple) and isinstance(n.value, ast.GeneratorExp):
+        if isinstance(n, ast.Assign) and isinstance(n.targets[0], ast.Tuple) and isinstance(n.value, (ast.GeneratorExp, ast.ListComp)):
             g = n.value.generators[0]
             if isinstance(g.iter, (ast.List, ast.Tuple)) and all(isinstance(x, ast.Constant) for x in g.iter.elts) \
                     and 'find_children' in ast.unparse(n.value.elt) and len(g.iter.elts) == len(n.targets[0].elts):
